@@ -62,7 +62,7 @@ func (w *c05world) handler(rw http.ResponseWriter, q *http.Request, rec *rig.Ori
 	res.arrOnce.Do(func() { close(res.arrived) })
 	select {
 	case <-res.gate:
-	case <-time.After(20 * time.Second):
+	case <-time.After(60 * time.Second):
 		rec.AppendNote(";gate-timeout")
 	}
 	w.mu.Lock()
@@ -124,6 +124,9 @@ type c05burst struct {
 	// History: what the same URL answered once before it became the cacheable resource of this burst:
 	// "" | "404" | "503" | "no-store"
 	History string `json:"earlier_answer_for_this_url,omitempty"`
+	// HoldS: the origin keeps the coalesced clients waiting this many seconds for its answer (a slow origin is not a
+	// reason to fetch more than once or to give up)
+	HoldS int `json:"origin_answers_after_seconds,omitempty"`
 }
 
 func c05one(r *core.Recorder, w *c05world, p *rig.ProxyRig, o *rig.Origin, mode rig.Mode, bu c05burst, resNo int) {
@@ -246,6 +249,9 @@ func c05one(r *core.Recorder, w *c05world, p *rig.ProxyRig, o *rig.Origin, mode 
 			waitFor(func() bool { return w.enterCount(key.Hex) >= base+bu.N+1 }, 10*time.Second)
 		}
 	}
+	if bu.HoldS > 0 {
+		time.Sleep(time.Duration(bu.HoldS) * time.Second)
+	}
 	close(res.gate)
 	wg.Wait()
 	if !inflight || !allIn {
@@ -254,7 +260,7 @@ func c05one(r *core.Recorder, w *c05world, p *rig.ProxyRig, o *rig.Origin, mode 
 	}
 	r.Count("bursts_with_confirmed_overlap", 1)
 	r.Count("coalesced_requests_observed", int64(bu.N))
-	r.Nontrivial(bu.N, bu.State, bu.Outcome, bu.Perturb, bu.Who, bu.Mode, bu.Backend, bu.ZeroLife, bu.History)
+	r.Nontrivial(bu.N, bu.State, bu.Outcome, bu.Perturb, bu.Who, bu.Mode, bu.Backend, bu.ZeroLife, bu.History, bu.HoldS)
 
 	var mine []rig.OriginReq
 	for _, g := range o.Since(seqBefore) {
@@ -302,6 +308,9 @@ func c05one(r *core.Recorder, w *c05world, p *rig.ProxyRig, o *rig.Origin, mode 
 			if bu.History != "" {
 				sig += ":after-" + bu.History
 			}
+			if bu.HoldS > 0 {
+				sig += ":slow-origin"
+			}
 			r.Violation("C05", sig, fmt.Sprintf("client %d (%s) of a burst of %d got status %d err=%v body=%s; expected 200 with the complete v%d", i, role(i), bu.N, resp.Status, resp.Err, bv, wantVer), cs, wit)
 			break
 		}
@@ -331,7 +340,7 @@ func c05one(r *core.Recorder, w *c05world, p *rig.ProxyRig, o *rig.Origin, mode 
 		}
 	}
 	if n < lo || n > hi {
-		r.Violation("C05", fmt.Sprintf("C05:origin-fetch-count:%s:%s:%s%s", bu.State, bu.Outcome, bu.Perturb, map[bool]string{true: ":after-" + bu.History, false: ""}[bu.History != ""]), fmt.Sprintf("%d overlapping identical GETs (%s, %s, %s) caused %d origin requests; expected %d..%d", bu.N, bu.State, bu.Outcome, bu.Perturb, n, lo, hi), cs, wit)
+		r.Violation("C05", fmt.Sprintf("C05:origin-fetch-count:%s:%s:%s%s%s", bu.State, bu.Outcome, bu.Perturb, map[bool]string{true: ":after-" + bu.History, false: ""}[bu.History != ""], map[bool]string{true: ":slow-origin", false: ""}[bu.HoldS > 0]), fmt.Sprintf("%d overlapping identical GETs (%s, %s, %s) caused %d origin requests; expected %d..%d", bu.N, bu.State, bu.Outcome, bu.Perturb, n, lo, hi), cs, wit)
 	}
 	if bu.Outcome == "cacheable" && bu.Perturb == "none" && bu.ZeroLife == "" && !bu.Tiny {
 		seq2 := o.LastSeq()
@@ -444,6 +453,14 @@ func c05Run(b core.Batch, r *core.Recorder) {
 		for _, st := range []string{"cold", "stale-304"} {
 			emit(c05burst{N: ns[i%len(ns)], State: st, Outcome: "cacheable", Perturb: "none", ZeroLife: zl})
 		}
+	}
+	// a slow origin: the answer comes after 11 s (thorough: also 31 s) with all clients waiting on the one fetch
+	holds := []int{11}
+	if b.Tier == "thorough" {
+		holds = []int{11, 31}
+	}
+	for _, h := range holds {
+		emit(c05burst{N: 3, State: "cold", Outcome: "cacheable", Perturb: "none", HoldS: h})
 	}
 	// a URL that once answered something unstorable and has become cacheable since
 	for _, hist := range []string{"404", "503", "no-store"} {
